@@ -183,8 +183,11 @@ def l10n_bad_value(rng, fmt, ref):
     w = words(rng, 1, 2)
     if fmt == "properties" and ref["spec"]:
         if len(ref["spec"][1]) == 1:
-            return rng.choice([w + " %d", "%S " + w + " %S", w + " % " + "%S"])
-        return "%1$S " + w + " %2$d"
+            # wrong type, obsolete argument, stray %, mixed ordered / unordered, gap
+            return rng.choice([w + " %d", "%S " + w + " %S", w + " % " + "%S", "100% " + w,
+                               "%1$S " + w + " %S", "%2$S " + w])
+        return rng.choice(["%1$S " + w + " %2$d", "%1$S " + w + " %S", "%2$S " + w,
+                           "%1$S % " + w + " %2$S", "%3$S " + w + " %1$S"])
     if fmt == "dtd":
         return rng.choice(["<b>" + w, w + " & " + w, w + " <", "</i>" + w])
     if fmt == "android":
@@ -640,13 +643,13 @@ class Result:
     pass
 
 
-def run_pair(env, fmt, ref_bytes, l10n_bytes, op="compare", quiet_level=None):
+def run_pair(env, fmt, ref_bytes, l10n_bytes, op="compare", quiet_level=None, name=None):
     """one compare()/add()/remove() on fresh files; everything the oracle and the model need.
     quiet_level None: the comparer has the recording Collector as its only observer;
     0..4: wired as compareProjects does it - ContentComparer(quiet) with Observer(quiet=quiet)
     appended - plus the Collector as a passive listener whose verdict never decides"""
     from compare_locales.paths import File
-    name = FILE[fmt]
+    name = name or FILE[fmt]
     refp, l10np, mergep = env.path("ref", name), env.path("l10n", name), env.merge_path(name)
     for side in ("ref", "l10n"):
         for f in os.listdir(os.path.join(env.root, side)):
@@ -680,8 +683,7 @@ def run_pair(env, fmt, ref_bytes, l10n_bytes, op="compare", quiet_level=None):
             else:
                 cc.remove(File(refp, name), File(l10np, name, locale="xx"), mergep)
         except Exception as e:  # noqa
-            if type(e).__name__ not in common.TAGS:
-                raise
+            # whatever escapes compare()/add()/remove() is a failing input, not a harness crash
             r.exc = type(e).__name__
     r.untouched = before == env.snapshot()
     r.listing = env.merge_listing()
@@ -690,7 +692,7 @@ def run_pair(env, fmt, ref_bytes, l10n_bytes, op="compare", quiet_level=None):
     r.calls, r.trace = env.calls, env.trace
     r.action, r.trace_problem = action_of(env.trace, refp, l10np, mergep)
     if r.exc is not None:
-        r.impl = common.raised(common.TAGS[r.exc])
+        r.impl = common.raised(common.TAGS.get(r.exc, common.TAGS["RuntimeError"]))
     elif r.action is None:
         r.impl = [2, s2l(r.trace_problem)]
     else:
@@ -848,7 +850,11 @@ def oracle_compare(chk, env, case, r, expect=None):
         return pure, fails
     chk.hist("precondition", "ok")
     # second comparison
-    col2 = recompare(env, r)
+    try:
+        col2 = recompare(env, r)
+    except Exception as e:  # noqa
+        fails.append(("recompare-raised", type(e).__name__))
+        return pure, fails
     if col2.errors():
         fails.append(("recompare-reports-errors", col2.errors()[:3]))
     if fmt in MERGEABLE and col2.missing():
@@ -1059,17 +1065,38 @@ def suite_format(chk, env, model, fmt, n):
                            [s2l(b) for _, _, b in spl], outs)
 
 
+# names that contain a known extension but do not end in it: no parser, copied verbatim
+LOOKALIKE = [("ini", "application.ini.in"), ("properties", "a.properties.orig"), ("dtd", "b.dtd~"),
+             ("ftl", "c.ftl.bak"), ("po", "foo.po.rej"), ("android", "strings.xml.orig"),
+             ("inc", "defines.inc.old"), ("properties", "a.properties.in"), ("po", "foo.pot.bak"),
+             ("dtd", "x.dtd.txt")]
+
+
 def suite_unknown(chk, env, model, n):
     rng = chk.rng
     cases, impls, reqs = [], [], []
     for i in range(n):
-        ref_bytes = words(rng, 1, 5).encode("utf-8") + rng.choice([b"", b"\n"])
-        l10n_bytes = bytes(rng.randrange(256) for _ in range(rng.randint(0, 12))) \
-            if rng.random() < 0.5 else words(rng, 0, 5).encode("utf-8")
+        if i % 2 == 0:
+            name = None
+            ref_bytes = words(rng, 1, 5).encode("utf-8") + rng.choice([b"", b"\n"])
+            l10n_bytes = bytes(rng.randrange(256) for _ in range(rng.randint(0, 12))) \
+                if rng.random() < 0.5 else words(rng, 0, 5).encode("utf-8")
+        else:
+            # the contents of a known format (with missing / obsolete / broken entries) under
+            # a name no parser is registered for
+            fmt, name = LOOKALIKE[(i // 2) % len(LOOKALIKE)]
+            recs, used = gen_reference(rng, fmt)
+            ref_bytes = render(rng, fmt, [("rec", r_, "same") for r_ in recs]).encode("utf-8")
+            l10n_bytes = render(rng, fmt, gen_l10n(rng, fmt, recs, used)).encode("utf-8")
         case = make_case("txt", ref_bytes, l10n_bytes, "unknown-type")
-        r = run_pair(env, "txt", ref_bytes, l10n_bytes)
-        chk.count(("txt", ref_bytes, l10n_bytes))
+        case["name"] = name
+        r = run_pair(env, "txt", ref_bytes, l10n_bytes, name=name)
+        chk.count(("txt", name, ref_bytes, l10n_bytes))
+        chk.hist("unknown_name", name or FILE["txt"])
         report(chk, env, case, r)
+        entity_level = [c for c, _ in r.col.events if c not in ("missingFile", "obsoleteFile")]
+        if entity_level or r.col.stats:
+            chk.fail("unknown-type-reported-on", case, {"events": r.col.events[:5], "stats": r.col.stats})
         cases.append(case)
         impls.append(r.impl)
         reqs.append((2, [1]))
@@ -1608,7 +1635,7 @@ def replay(chk, path):
                 continue
             l10n = None if c.get("l10n_hex") is None else bytes.fromhex(c["l10n_hex"])
             r = run_pair(env, c["format"], c["ref"].encode("utf-8"), l10n, c.get("op", "compare"),
-                         quiet_level=c.get("quiet"))
+                         quiet_level=c.get("quiet"), name=c.get("name"))
             print("case", json.dumps(c, ensure_ascii=False)[:1500])
             print("staged", r.merged, "raised", r.exc)
             if c.get("op", "compare") == "compare":
